@@ -235,6 +235,27 @@ def reader_leaves(body, crates):
         if ret is None:
             continue
         bb, e = ret
+        # `_0 = move tmp` (e.g. the value handed back by an inlined helper): take tmp's last assignment on this path
+        hops = 0
+        while e[0] in ("var", "path") and not (e[0] == "path" and e[2]) and hops < 4:
+            hops += 1
+            lcl = e[2] if e[0] == "var" else None
+            if lcl is None:
+                nm = [l for l, loc in enumerate(body.locals) if vx.root_name(l) == e[1]]
+                lcl = nm[0] if len(nm) == 1 else None
+            if lcl is None:
+                break
+            last = None
+            for b_ in blocks:
+                for st in body.blocks[b_]["stmts"]:
+                    if st["s"] == "assign" and st["p"]["l"] == lcl and not st["p"]["p"]:
+                        last = (b_, vx.rvalue(st["rv"], b_))
+                tt_ = body.blocks[b_]["term"]
+                if tt_["t"] == "call" and tt_["dest"]["l"] == lcl and not tt_["dest"]["p"]:
+                    last = (b_, ("call", callee(tt_)))
+            if last is None:
+                break
+            bb, e = last
         key_known = any(is_key(vx.operand(body.blocks[b_]["term"]["d"], b_)) or True for b_ in blocks
                         if body.blocks[b_]["term"]["t"] == "switch")
         if e[0] == "agg" and e[1] == "core::result::Result::Err" or (e[0] == "call"):
